@@ -272,25 +272,32 @@ def check_reuse(srcs):
 
     shared = SCFG2ASTTransformer()
     done = 0
+    refused = 0
+
+    def gen(tr, src, scfg):
+        try:
+            return ("ok", ast.unparse(ast.fix_missing_locations(tr.transform(original=ast.parse(src).body[0], scfg=scfg))))
+        except Exception as e:
+            if not library_raised(e):
+                raise
+            return ("raised", type(e).__name__)
+
     for i, src in enumerate(srcs):
         try:
             scfg = AST2SCFG(src)
             scfg.restructure()
-            fresh = ast.unparse(ast.fix_missing_locations(SCFG2ASTTransformer().transform(original=ast.parse(src).body[0], scfg=scfg)))
         except Exception as e:
             if not library_raised(e):
                 raise
-            continue  # refusals and internal errors of a single run are judged by the main leg
-        try:
-            reused = ast.unparse(ast.fix_missing_locations(shared.transform(original=ast.parse(src).body[0], scfg=scfg)))
-        except Exception as e:
-            if not library_raised(e):
-                raise
-            return "fail", "C10:G-reuse", f"a transformer object that already regenerated {done} other function(s) raised {type(e).__name__}: {e} on function #{i} (a fresh one succeeds)", {}
+            continue  # front end / restructuring failures are judged elsewhere
+        fresh = gen(SCFG2ASTTransformer(), src, scfg)
+        reused = gen(shared, src, scfg)  # also when the fresh one refuses: an aborted transform() must leave nothing behind
         if reused != fresh:
-            return "fail", "C10:G-reuse", f"a transformer object that already regenerated {done} other function(s) emits different code for function #{i} than a fresh transformer", {}
+            what = "emits different code" if reused[0] == fresh[0] == "ok" else f"ends with {reused[0]} {reused[1] if reused[0] != 'ok' else ''} where a fresh transformer ends with {fresh[0]} {fresh[1] if fresh[0] != 'ok' else ''}"
+            return "fail", "C10:G-reuse", f"a transformer object that already handled {done} function(s) ({refused} of them refused / aborted) {what} for function #{i}", {}
         done += 1
-    return "ok", None, "", dict(reused=done)
+        refused += fresh[0] != "ok"
+    return "ok", None, "", dict(reused=done, refused=refused)
 
 
 def _run_reuse(spec):
@@ -307,6 +314,7 @@ def _run_reuse(spec):
         col.count("reuse_functions", info.get("reused", 0))
         if status == "fail":
             col.fail(sig, msg, dict(sequence=list(srcs)), sum(len(x) for x in srcs))
+        col.count("reuse_after_refusal", 1 if info.get("refused") else 0)
         col.case(("reuse", tuple(srcs)), sum(len(x) for x in srcs), info.get("reused", 0) >= 2, sample=dict(sequence=list(srcs), status=status), classes=["reuse"])
 
     t()
